@@ -40,10 +40,14 @@ def check(P: Project, R: Report) -> None:
     # the sanitiser: ProtocolVersion.is_supported(v) == v in SUPPORTED_VERSIONS
     iss = P.func(A.MOD_VERSION, "ProtocolVersion.is_supported")
     R.fn(iss.fq)
-    rets = [n for n in walk_local(iss.node) if isinstance(n, ast.Return)]
     p = iss.positional_params()[-1]
-    ok_iss = len(rets) == 1 and rets[0].value is not None and ast.unparse(rets[0].value) == f"{p} in SUPPORTED_VERSIONS"
-    R.ob("R1", "is_supported is list membership", ok_iss, iss.where, f"is_supported returns `{ast.unparse(rets[0].value) if rets and rets[0].value is not None else None}`")
+    ia, io = run_paths(iss.node, fallible=False)
+    R.need(io.ret, "is_supported has no return")
+    for st, node in io.ret:
+        txt = subst_text(node.value, st) if node.value is not None else "None"
+        R.ob("R1", "is_supported is membership of the value itself in SUPPORTED_VERSIONS", txt == f"{p} in SUPPORTED_VERSIONS", f"{iss.module.rel}:{node.lineno}",
+             f"is_supported decides `{txt}`: the sanitiser accepts values other than the members of the list (the handler then acknowledges the raw request value)")
+    R.ob("R1", "is_supported cannot fall off the end or raise", not io.normal and not io.exc, iss.where, "")
     cur = try_fold(P, P.module(A.MOD_VERSION), ast.Name(id="CURRENT_VERSION", ctx=ast.Load()))
     R.ob("R1", "CURRENT_VERSION is a supported version", cur in supported, A.MOD_VERSION, f"CURRENT_VERSION={cur!r}")
 
